@@ -41,6 +41,14 @@ def _outfile(entry):
 
 
 def pre(kind, entry):
+    if kind == 'out-absent':
+        # the tool never writes to the file pysaml2 holds open: detach the path before the run
+        of = _outfile(entry)
+        if of:
+            try:
+                os.unlink(of)
+            except OSError:
+                pass
     if kind.startswith('oserror-'):
         code = getattr(errno, kind.split('-', 1)[1])
         entry['rc'] = None
